@@ -466,6 +466,9 @@ func (fr *Frame) nativeCall(f *ssa.Function, args []Val, in ssa.Instruction) (Va
 func (fr *Frame) execBuiltin(v ssa.Value, b *ssa.Builtin, c *ssa.CallCommon, args []Val, in ssa.Instruction) {
 	switch b.Name() {
 	case "len", "cap":
+		if mv, ok := args[0].(MapV); ok {
+			args[0] = TV{fr.mem[mv.Cell], mv.Typ}
+		}
 		switch a := args[0].(type) {
 		case SliceV:
 			if b.Name() == "cap" {
